@@ -163,9 +163,7 @@ func gBuild(c gCase) []*GNode {
 		if r, ok := nv["p"]; ok {
 			n.P = node(r)
 		}
-		_, has1 := nv["s1"]
-		_, has2 := nv["s2"]
-		if has1 || has2 {
+		if nv["s1"].T == "node" || nv["s2"].T == "node" {
 			n.S = []*GNode{node(nv["s1"]), node(nv["s2"])}
 		}
 		if r, ok := nv["a"]; ok {
@@ -182,6 +180,11 @@ func gBuild(c gCase) []*GNode {
 		}
 		if r, ok := nv["i"]; ok {
 			n.I = any(r)
+		}
+		// a node without any outgoing reference is entirely zero-valued (also its payload): shared sinks of that kind must
+		// stay shared like any other node
+		if n.P == nil && n.S == nil && n.A[0] == nil && n.M == nil && n.MI == nil && n.MM == nil && n.I == nil {
+			n.V = 0
 		}
 	}
 	return nodes
